@@ -178,6 +178,11 @@ func (e *Env) Predict(sel map[string]bool, cfg BuildCfg) (*Pred, error) {
 		case forced:
 			p.Class[l] = MustExec
 			p.Reason[l] = why
+		case e.Memo[st.LooseKey] == "ok" && e.anyUnsure(st.DirectDeps):
+			// a dependency's stored result was left by a cache-disabled build: the flavour of
+			// its output hash (and with it this target's key) is not fixed by the documented rules
+			p.Class[l] = MayExec
+			p.Reason[l] = "rules-silent"
 		case e.Memo[st.LooseKey] == "ok":
 			p.Class[l] = MustNotExec
 			p.Reason[l] = "cached"
@@ -206,6 +211,12 @@ func (e *Env) Predict(sel map[string]bool, cfg BuildCfg) (*Pred, error) {
 
 // Commit updates memo and taint after a build, given what was observed to have executed.
 func (e *Env) Commit(p *Pred, o *Obs, cfg BuildCfg) {
+	// keys of this build were computed from the dependency results as they were when the
+	// build started (a dependency may be re-run later in the same build under minimal)
+	unsureAtStart := map[string]bool{}
+	for k, v := range e.Unsure {
+		unsureAtStart[k] = v
+	}
 	for _, l := range p.Order {
 		if !p.Selected[l] {
 			continue
@@ -234,7 +245,7 @@ func (e *Env) Commit(p *Pred, o *Obs, cfg BuildCfg) {
 		// flavour; dependants keyed on it are not fixed by the documented rules either.
 		depUnsure := false
 		for _, d := range st.DirectDeps {
-			if e.Unsure[d] {
+			if unsureAtStart[d] {
 				depUnsure = true
 			}
 		}
@@ -590,4 +601,13 @@ func (e *Env) depRelation(l string, st *spec.TState) string {
 	}
 	sort.Strings(ks)
 	return "via=" + strings.Join(ks, "+")
+}
+
+func (e *Env) anyUnsure(deps []string) bool {
+	for _, d := range deps {
+		if e.Unsure[d] {
+			return true
+		}
+	}
+	return false
 }
